@@ -15,6 +15,14 @@ use tokio::sync::oneshot;
 #[path = "tests/crypto_tests.rs"]
 pub mod crypto_tests;
 
+#[cfg(all(test, feature = "hotstuff_verif"))]
+#[path = "/verif/replay/crypto.rs"]
+mod verif_replay;
+
+#[cfg(kani)]
+#[path = "/verif/kani/crypto.rs"]
+mod verif_kani;
+
 pub type CryptoError = ed25519::Error;
 
 /// Represents a hash digest (32 bytes).
